@@ -21,6 +21,20 @@ STD = [  # (keyword, values by VM kind)
 ]
 
 
+def make_csa2(tags):
+    """a minimal valid Siemens CSA2 ('SV10') header: what the default CSA translators can parse"""
+    out = [b'SV10', b'\x04\x03\x02\x01', struct.pack('<2I', len(tags), 77)]
+    for name, vr, items in tags:
+        out.append(struct.pack('<64si4s3i', name.encode('ascii'), len(items), vr.encode('ascii'), 0, len(items), 77))
+        for item in items:
+            data = item.encode('ascii')
+            out.append(struct.pack('<4i', len(data), len(data), 77, len(data)))
+            out.append(data)
+            if len(data) % 4:
+                out.append(b'\x00' * (4 - len(data) % 4))
+    return b''.join(out)
+
+
 PRIV_CLASH = [
     ('GEMS_IDEN_01', (0x0009, 0x0030), (0x0009, 0x3017), 'LT', 'private series desc', (0x0008, 0x103e), 'LO', 'std series desc'),
     ('SIEMENS MR HEADER', (0x0019, 0x0030), (0x0019, 0x300d), 'CS', 'NONE', (0x0018, 0x9075), 'CS', 'DIRECTIONAL'),
@@ -70,6 +84,16 @@ def gen_dataset(r, depth=0):
                     ds.add_new(ptag, pvr, pval)
                     if r.random() < 0.8 and stag not in ds:
                         ds.add_new(stag, svr, sval)
+            except Exception:
+                pass
+        if r.random() < 0.25:
+            # a parseable Siemens CSA image header in a private block
+            slot = r.choice([0x10, 0x20])
+            try:
+                if (0x0029, slot) not in ds:
+                    ds.add_new((0x0029, slot), 'LO', 'SIEMENS CSA HEADER')
+                    ds.add_new((0x0029, (slot << 8) | 0x10), 'OB',
+                               make_csa2([('EchoLinePosition', 'IS', ['64']), ('ProtocolSliceNumber', 'IS', ['3'])]))
             except Exception:
                 pass
         if r.random() < 0.5:
@@ -136,6 +160,10 @@ def configs(r):
                             lambda elem: {'val': str(elem.value), 'n': 1})
     cfgs.append(('custom_translator', extract.MetaExtractor(translators=(tr,)), RULE_NAMES))
     cfgs.append(('no_rules', extract.MetaExtractor(ignore_rules=(), translators=()), []))
+    # explicitly no translators (what `dcmstack --disable-translator all` passes), default rules:
+    # nothing that stems from a private element may appear
+    cfgs.append(('no_translators', extract.MetaExtractor(translators=()), RULE_NAMES))
+    cfgs.append(('no_translators_list', extract.MetaExtractor(translators=[]), RULE_NAMES))
     seq_tags = [pydicom.tag.Tag(0x0008, 0x1140), pydicom.tag.Tag(0x0008, 0x2112), pydicom.tag.Tag(0x0018, 0x0081)]
     custom = lambda elem: elem.tag in seq_tags
     ex = extract.MetaExtractor(ignore_rules=tuple(getattr(extract, n) for n in RULE_NAMES) + (custom,))
@@ -214,6 +242,12 @@ def main(pid, tier):
                         k = ex._get_elem_key(e)
                         if k in std_keys and all((o.tag.group % 2 == 1) for o in ds if ex._get_elem_key(o) == k):
                             fails.append(('private', 'private element %s extracted as %s without translator' % (e.tag, k)))
+            if cname.startswith('no_translators'):
+                nonpriv = {ex._get_elem_key(e) for e in ds if e.tag.group % 2 == 0}
+                for k in res:
+                    if k.split('_0X')[0] not in nonpriv:
+                        fails.append(('private', 'no translator registered, private extraction off, yet key %s (from a private element) was extracted' % k))
+                        break
             if 'ignore_pixel_data' in rules and any(k in res for k in ('PixelData',)):
                 fails.append(('pixeldata', 'pixel data extracted'))
             if 'ignore_pixel_data' in rules and any(k in res for k in ('FloatPixelData', 'DoubleFloatPixelData')):
